@@ -126,6 +126,50 @@ type World struct {
 	Devs []string
 	// Events emitted since the last call of TakeEvents (block + tx events in order).
 	events []abci.Event
+	// LB holds balances sampled between the phases of the last Block call.
+	LB BlockPhases
+	// Minted accumulates what the mint monitor has seen minted since MintSince.
+	Minted    math.Int
+	MintSince time.Time
+	// FromBondShort accumulates, per known finding C04/F1, how much less than the recorded fee
+	// fee-from-stake payments actually moved into the dispute account.
+	FromBondShort math.Int
+}
+
+// BlockPhases are module balances sampled after EndBlocker and after BeginBlocker.
+type BlockPhases struct {
+	SupplyAfterEnd, TBRAfterEnd, FeeDistAfterEnd       math.Int
+	SupplyAfterBegin, TBRAfterBegin, FeeDistAfterBegin math.Int
+	BeginEvents                                        []abci.Event
+}
+
+// ReceivedInBegin sums the bank "coin_received" events of the last BeginBlock for one receiver.
+func (w *World) ReceivedInBegin(receiver sdk.AccAddress) math.Int {
+	sum := math.ZeroInt()
+	for _, ev := range w.LB.BeginEvents {
+		if ev.Type != "coin_received" {
+			continue
+		}
+		var rcv, amt string
+		for _, a := range ev.Attributes {
+			switch a.Key {
+			case "receiver":
+				rcv = a.Value
+			case "amount":
+				amt = a.Value
+			}
+		}
+		if rcv == receiver.String() {
+			if c, err := sdk.ParseCoinsNormalized(amt); err == nil {
+				sum = sum.Add(c.AmountOf(Denom))
+			}
+		}
+	}
+	return sum
+}
+
+func (w *World) feeDist() math.Int {
+	return w.ModBal(authtypes.FeeCollectorName).Add(w.ModBal("distribution"))
 }
 
 type HaltInfo struct {
@@ -436,10 +480,17 @@ func (w *World) Block(dt time.Duration, injected ...[]byte) bool {
 		return false
 	}
 	w.Ctx = w.Ctx.WithEventManager(sdk.NewEventManager())
-	if !w.guard("end", func() error { _, err := w.App.EndBlocker(w.Ctx); return err }) {
+	var endEvents []abci.Event
+	if !w.guard("end", func() error {
+		r, err := w.App.EndBlocker(w.Ctx)
+		endEvents = r.Events
+		return err
+	}) {
 		return false
 	}
 	w.events = append(w.events, w.Ctx.EventManager().ABCIEvents()...)
+	w.events = append(w.events, endEvents...)
+	w.LB.SupplyAfterEnd, w.LB.TBRAfterEnd, w.LB.FeeDistAfterEnd = w.Supply(), w.ModBal("time_based_rewards"), w.feeDist()
 	h := w.Ctx.BlockHeight() + 1
 	t := w.Ctx.BlockTime().Add(dt)
 	hdr := w.Ctx.BlockHeader()
@@ -451,10 +502,17 @@ func (w *World) Block(dt time.Duration, injected ...[]byte) bool {
 	if !w.guard("pre", func() error { _, err := w.App.VerifPreBlocker()(w.Ctx, req); return err }) {
 		return false
 	}
-	if !w.guard("begin", func() error { _, err := w.App.BeginBlocker(w.Ctx); return err }) {
+	var beginEvents []abci.Event
+	if !w.guard("begin", func() error {
+		r, err := w.App.BeginBlocker(w.Ctx)
+		beginEvents = r.Events
+		return err
+	}) {
 		return false
 	}
-	w.events = append(w.events, w.Ctx.EventManager().ABCIEvents()...)
+	w.LB.BeginEvents = append(w.Ctx.EventManager().ABCIEvents(), beginEvents...)
+	w.events = append(w.events, w.LB.BeginEvents...)
+	w.LB.SupplyAfterBegin, w.LB.TBRAfterBegin, w.LB.FeeDistAfterBegin = w.Supply(), w.ModBal("time_based_rewards"), w.feeDist()
 	return true
 }
 
